@@ -275,7 +275,24 @@ func c19EndlessRun(c c19EndlessCase) Verdict {
 	}
 	if st := w.WaitQuiet(); st != harness.QClosed {
 		// not closed although a megabyte without LF arrived
+		consumedNow := w.S.Consumed() - base
 		w.Finish()
+		if st == harness.QIdle && c.Position == "data-body" {
+			// Inside a message the line limit is the server's choice (C19
+			// speaks of command lines); what matters is that the octets are
+			// not *held*: they must have gone on to the backend.
+			delivered := int64(0)
+			for _, e := range dataEvents(r.B.Events()) {
+				delivered += int64(len(e.Data.Bytes))
+			}
+			if held := consumedNow - delivered; held > int64(c.L+2*4096+64) {
+				return failf("unbounded-buffering", "server took %d octets of an endless message line off the network and handed only %d to the backend: it holds %d", consumedNow, delivered, held)
+			}
+			if p := r.Log.Panicked(); p != "" {
+				return failf("panic", "server logged a panic: %s", p)
+			}
+			return Verdict{NonTrivial: true, Classes: []string{"endless_data-body_streamed"}}
+		}
 		if st == harness.QIdle {
 			return failf("endless-line-buffered", "server consumed %d octets of an endless line (limit %d) and is still waiting for more", w.S.Consumed()-base, c.L)
 		}
